@@ -418,6 +418,7 @@ type LoopSpec struct {
 
 type SiteAssert struct {
 	Assume bool
+	Let    string
 	Callee string // short callee name, e.g. "mta.BobMid" or "(*Int).Exp"
 	Ord    int
 	C      *Clause
@@ -763,6 +764,13 @@ func (cs *ContractSet) parseContractFile(path, pkgPath string, goFile bool) erro
 					assumeSite = true
 					head = strings.TrimSpace(strings.TrimSuffix(head, " assume"))
 				}
+				letName := ""
+				if li := strings.Index(head, " let "); li >= 0 {
+					// site <callee>#<k> let <name> : expr -- a ghost name for a value at this
+					// call (usable as $<name> in postconditions; unconstrained if the call is not reached)
+					letName = strings.TrimSpace(head[li+5:])
+					head = strings.TrimSpace(head[:li])
+				}
 				ord := 0
 				if h := strings.LastIndex(head, "#"); h >= 0 {
 					ord, _ = strconv.Atoi(head[h+1:])
@@ -772,7 +780,7 @@ func (cs *ContractSet) parseContractFile(path, pkgPath string, goFile bool) erro
 				if err != nil {
 					return fail(err)
 				}
-				cur.Sites = append(cur.Sites, &SiteAssert{Callee: head, Ord: ord, C: c, Assume: assumeSite})
+				cur.Sites = append(cur.Sites, &SiteAssert{Callee: head, Ord: ord, C: c, Assume: assumeSite, Let: letName})
 			}
 		}
 	}
